@@ -118,6 +118,7 @@ func explore(t *testing.T, job *proto.Job, out *bufio.Writer) {
 		os.Exit(2)
 	}
 	start := time.Now()
+	begin := start
 	st := proto.Stats{Probes: map[string]int{}, Faults: map[string]int{}, Policies: map[string]int{}, Exhaustive: map[string]int{}}
 	caseSet := map[uint64]struct{}{}
 	ntSet := map[uint64]struct{}{}
@@ -126,11 +127,41 @@ func explore(t *testing.T, job *proto.Job, out *bufio.Writer) {
 	N := p.NumCases(job.Tier)
 	enc := json.NewEncoder(out)
 	complete := true
+	part := 0
+	// flush emits the statistics gathered since the last flush (so that a worker
+	// death loses at most a few hundred cases of accounting) and resets them.
+	flush := func(final, complete bool) {
+		st.Complete = final && complete
+		st.Final = final
+		st.WallS = time.Since(start).Seconds()
+		st.Nontrivial = len(ntSet)
+		if job.OutDir != "" {
+			tag := fmt.Sprintf("%d.%d.%d", job.Shard, job.Start, part)
+			writeSet(filepath.Join(job.OutDir, "cases."+tag), caseSet)
+			writeSet(filepath.Join(job.OutDir, "nontrivial."+tag), ntSet)
+			writeSet(filepath.Join(job.OutDir, "interleavings."+tag), ilSet)
+			writeSet(filepath.Join(job.OutDir, "outcomes."+tag), outSet)
+		}
+		part++
+		if final {
+			out.WriteString("S ")
+		} else {
+			out.WriteString("P ")
+		}
+		enc.Encode(&st)
+		out.Flush()
+		st = proto.Stats{Probes: map[string]int{}, Faults: map[string]int{}, Policies: map[string]int{}, Exhaustive: map[string]int{}}
+		caseSet = map[uint64]struct{}{}
+		ntSet = map[uint64]struct{}{}
+		ilSet = map[uint64]struct{}{}
+		outSet = map[uint64]struct{}{}
+		start = time.Now()
+	}
 	for idx := job.Shard; idx < N; idx += job.NShards {
 		if idx < job.Start {
 			continue
 		}
-		if job.MaxSec > 0 && time.Since(start) > time.Duration(job.MaxSec)*time.Second {
+		if job.MaxSec > 0 && time.Since(begin) > time.Duration(job.MaxSec)*time.Second {
 			complete = false
 			break
 		}
@@ -188,19 +219,11 @@ func explore(t *testing.T, job *proto.Job, out *bufio.Writer) {
 			enc.Encode(&v)
 		}
 		fmt.Fprintf(out, "E %d\n", idx)
+		if st.Cases >= 400 {
+			flush(false, false)
+		}
 	}
-	st.Complete = complete
-	st.WallS = time.Since(start).Seconds()
-	st.Nontrivial = len(ntSet)
-	if job.OutDir != "" {
-		writeSet(filepath.Join(job.OutDir, fmt.Sprintf("cases.%d.%d", job.Shard, job.Start)), caseSet)
-		writeSet(filepath.Join(job.OutDir, fmt.Sprintf("nontrivial.%d.%d", job.Shard, job.Start)), ntSet)
-		writeSet(filepath.Join(job.OutDir, fmt.Sprintf("interleavings.%d.%d", job.Shard, job.Start)), ilSet)
-		writeSet(filepath.Join(job.OutDir, fmt.Sprintf("outcomes.%d.%d", job.Shard, job.Start)), outSet)
-	}
-	out.WriteString("S ")
-	enc.Encode(&st)
-	out.Flush()
+	flush(true, complete)
 }
 
 func shorten(s string, n int) string {
